@@ -15,8 +15,8 @@ set -u
 tier="${1:-quick}"
 seed="${VERIF_SEED:-1}"
 case "$tier" in
-  quick)    rounds=1; mseeds=8;  trees=12; limit=600  ;;
-  thorough) rounds=3; mseeds=16; trees=40; limit=1500 ;;
+  quick)    rounds=1; mseeds=6;  trees=10; limit=600  ;;
+  thorough) rounds=2; mseeds=16; trees=40; limit=1500 ;;
   *) echo "usage: $0 <quick|thorough>"; exit 2 ;;
 esac
 par="${C47_MIRI_PAR:-8}"
